@@ -327,6 +327,12 @@ func (ev *evaluator) checkFold(e ast.Expr, k kindT, exact val) {
 		ev.checkFoldInner(e.X)
 		ev.checkFoldInner(e.Y)
 	case *ast.CallExpr:
+		// constant conversion, e.g. float32(float64(-5e-324)): exact value 0, run-time conversion -0
+		if xk, xv, ok := ev.constOf(e.Args[0]); ok {
+			if r, okc := k.Conv(xk, xv); okc && !sameVal(k, r, exact) {
+				ev.mark("F-C01-5")
+			}
+		}
 		ev.checkFoldInner(e.Args[0])
 	}
 }
